@@ -1957,6 +1957,14 @@ class SymEval:
                                        bound_kwargs=tuple(kwargs), qualname=self.fname(args[0]) if args[0][0] in (
                                            "sym", "attr") else "partial")
             return ("closure", u)
+        if name == "jax.lax.dynamic_slice_in_dim" and 3 <= len(args) <= 4 and not (set(kw) - {"axis"}):
+            # dynamic_slice_in_dim(x, start, size, axis=0) is dynamic_slice(x, [start], [size]) in the leading axis (the other
+            # axes are taken whole: the form the repository writes as [start] + [0]*k, [size] + shape[1:])
+            ax = args[3] if len(args) == 4 else kw.get("axis", T.ZERO)
+            if T.const_value(ax) == 0:
+                t = T.mk_call("jax.lax.dynamic_slice", [args[0], ("list", (args[1],)), ("list", (args[2],))], [], None)
+                self.emit("call", "jax.lax.dynamic_slice", t, node, frame, args=(args[0], ("list", (args[1],)), ("list", (args[2],))), kwargs=())
+                return t
         if name in ("jax.jit", "jax.vmap", "equinox.filter_vmap", "equinox.filter_jit") and len(args) >= 1:
             u = self.uid()
             self.closures[u] = Closure(u, "wrap", inner=args[0], qualname=name, wrap=name)
